@@ -283,7 +283,7 @@ def cases(draw, n_classes=3):
     if classes:
         k = min(len(classes), n_classes)
         # prefer classes whose call tree has chunked sections
-        idxs = draw(st.lists(st.integers(0, len(classes) - 1), min_size=k, max_size=k, unique=True))
+        idxs = gencase.pick_classes(draw, an, classes, k)
         vg = valuegen.ValueGen(an, big_lengths=False)
         pick = lambda seq: draw(st.sampled_from(list(seq)))  # noqa
         faults = st.lists(st.integers(0, 10 ** 6), min_size=2, max_size=3, unique=True)
